@@ -4,7 +4,7 @@ META = {
     "bounds": "arrays of n jointly symbolic full-width elements, n as a compile-time constant: FOR n<=4 (all 72 offset-width x "
               "min-width classes in thorough, every width once in quick) incl. GetAt, DecodeBlock (symbolic start/size), Batch and "
               "already-analysed encoders; PFOR n<=3 at thresholds 90/95/99 in width classes, both decode paths and GetAt; group n<=4; "
-              "delta signed/unsigned n<=4; RLE n<=3 both formats + GetAt; dictionary n<=3 both decoders + explicit dictionary; Elias "
+              "delta signed/unsigned n<=4; RLE n<=3 both formats + GetAt; dictionary n<=3 both decoders + explicit dictionary, and a literal 255/256/257-entry dictionary (index-width boundary) with 2 symbolic members; Elias "
               "gamma/delta n=1 all values, n=2 in floor-log2 class pairs; BP128 all four codecs at the real block size with partial "
               "blocks n<=3 and with the block size scaled to 4 (MATTSTA_VARINT_VERIF hook) for n in {4,5,9}: full block, full+partial, "
               "two full + partial, split by bit-width class. The decoder is given the encoder's bytes followed by unrelated symbolic "
@@ -13,7 +13,7 @@ META = {
                "boundaries; the tagged count varint itself is decided for all values in C01/C04); SIMD builds (AVX2/NEON paths are not "
                "compiled by the pinned build); real 128-element blocks (scaled instances instead)",
     "assumptions": ["qsort stub = insertion sort calling the real comparator", "exact-size dispatch allocator (harness/common/vp_alloc.inc)",
-                    "byte-loop mem* stubs", "delta signed: differences representable in int64 (documented domain); Elias: values >= 1; "
+                    "byte-loop mem* stubs (dict-width queries: memcpy copies aligned 8-byte words, stub_mem64.c)", "delta signed: differences representable in int64 (documented domain); Elias: values >= 1; "
                     "BP128 delta: non-decreasing input"],
 }
 
